@@ -367,6 +367,10 @@ STAGES['C02']['thorough'].append(
 STAGES['C18']['quick'].append(
     ('charsets', 'MimeBuild', cfg(MAXP='2', MAXE='0', MAXA='1', ENCS='{"qp", "b64"}', CCS='<<"crlf">>', CHARSETS='{"latin1"}', PCHARSETS='{"", "utf8"}',
                                   HDRS=hdrsets(["subject", "gen"], ["utf8", "long", "words20", "dwords40", "blanks"]), PDESCS='{"", "longutf8"}', FNAMES='{"", "longutf8"}')))
+# a message that was parsed from its own rendering and is rendered again (a reply in a thread: long References): the library generates that output too
+STAGES['C18']['quick'].append(
+    ('rerendered-after-parsing', 'MimeBuild', cfg(MAXP='2', MAXE='0', MAXA='1', ENCS='{"qp", "b64"}', CCS='<<"crlf", "len76">>', ROUNDTRIP='{TRUE}',
+                                                  HDRS=hdrsets(["refs", "subject"], ["plain", "long", "words20"]))))
 STAGES['C08']['quick'].append(
     ('charsets', 'Smime', scfg(MAXP='2', MAXE='0', MAXA='1', ENCS='{"qp"}', SMIMES=KEYS2, CHARSETS='{"latin1"}', PCHARSETS='{"", "utf8"}',
                                HDRS=hdrsets(["subject"], ["utf8", "long"]), PDESCS='{"", "utf8"}', FNAMES='{"", "longutf8"}', CCS='<<"crlf", "utf8">>')))
